@@ -58,6 +58,10 @@ CLAIMED["C12"] = ("proof", "only()/exclude()/without_extras() of every marker cl
                   "when it does not mention the variable' is covered by the bounded part only (it depends on re-normalisation not discovering emptiness, see DESIGN).",
                   "5 C12", "law.C13 congruence; contracts of of()/flatten_items (proved in the same run); recursion through children by the method contracts (partial correctness); bounded part for the compound same-meaning clause",
                   "contract-based deductive verification: abstract markers (T-MARK), loop/comprehension invariants, z3 with deterministic instantiation")
+CLAIMED["C14"] = ("other", "Mixed: (proof) specifiers - 13 Boolean-algebra laws on operands of arbitrary class: both sides canonical and admitting the same versions (corollaries of the C01/C05 operator contracts), equality of the "
+                  "returned objects by the canonical-uniqueness lemma whose head/tail/base steps are machine-checked; a & ~a empty and a | ~a universal via witness points; markers - 10 laws up to equivalence as corollaries of the C02 operator law; "
+                  "(bounded) law sweep on real objects.", "5 C14", "C01/C05 contracts; list-induction principle for canonical uniqueness; C02 operator law (atom layer bounded); dense order",
+                  "corollaries of operator contracts + machine-checked lemmas (z3), bounded law sweep")
 CLAIMED["C02"] = ("other", "Mixed: (proof) the combinator layer - flatten_items, MultiMarker.of / MarkerUnion.of (three nested loops with invariants), cnf/dnf same-kind and leaf branches, intersection(), union(), "
                   "the &/| methods of AnyMarker/EmptyMarker/MultiMarker/MarkerUnion - is verified against 'result evaluates as the conjunction/disjunction of the operands' for all markers, list lengths and environments; "
                   "(bounded) the atom layer (merging of two single markers, ==/!= groups, python_version/python_full_version normalisation), the distributive branch of cnf/dnf and *_simplify are assumed contracts, "
